@@ -55,7 +55,19 @@ TRead ==
     /\ Range(Rec[l].hview) = hset
     /\ UNCHANGED <<vars, hset>>
 
-TraceNext == TReg \/ TDereg \/ TClose \/ TDie \/ TStart \/ THReg \/ THDereg \/ TSettle \/ TRead
+\* an HTTP update (console / open API) of an address that a gRPC connection holds: it is applied by the node responsible for
+\* the SERVICE, which need not be the connection's node, and travels from there.  The property asks for agreement, not for a
+\* winner: the holder's record ends with the new attributes or keeps the old ones - every node must then show the same
+THUpd ==
+    /\ IsEvent("hupd")
+    /\ LET a == Rec[l].a
+           o == OwnerOf(a)
+       IN /\ o # 0
+          /\ \E keep \in BOOLEAN :
+                inst' = IF keep THEN inst ELSE [inst EXCEPT ![o] = [@ EXCEPT ![a] = [@ EXCEPT !.attr = Rec[l].at]]]
+    /\ UNCHANGED <<msgs, cidx, alive, open, ops, hset>>
+
+TraceNext == TReg \/ TDereg \/ TClose \/ TDie \/ TStart \/ THReg \/ THDereg \/ THUpd \/ TSettle \/ TRead
 TraceSpec == TraceInit /\ [][TraceNext]_tvars
 
 TraceAccepted ==
